@@ -90,6 +90,9 @@ func TestVerif_C03_FullRT(t *testing.T) {
 				}
 			}
 			sc.Target = rapid.IntRange(0, 35).Draw(t, "target")
+			if sc.CancelMs == 0 && verifsim.Chance(t, "preCancel", 10) {
+				sc.CancelMs = -1 // cancelled before the call
+			}
 			sc.Abandon = sc.CancelMs > 0 && rapid.Bool().Draw(t, "abandon")
 			sc.SlowReadMs = rapid.SampledFrom([]int{0, 0, 40, 700}).Draw(t, "slowRead")
 			return sc
@@ -164,6 +167,11 @@ func TestVerif_C03_FullRT(t *testing.T) {
 				}
 				done := make(chan struct{})
 				started = sim.Now()
+				if sc.CancelMs < 0 {
+					// the context is already cancelled when the operation is called
+					cancelled = started + 1
+					cancel()
+				}
 				go func() {
 					defer close(done)
 					defer func() {
